@@ -67,6 +67,13 @@ def annotate(e):
 
 def body(ctx):
     ctx.model("AllocModel.tla", timeout=900)
+    # unbounded safety of the design: HeapInv is an inductive invariant of allocate/deallocate over the integers (Apalache)
+    for init, length in (("Init", 0), ("IndInit", 1)):
+        r = vf.apalache_check("AllocInd.tla", init, "HeapInv", length)
+        ctx.cov["model_runs"].append(dict(cfg="apalache AllocInd.tla --init=%s --inv=HeapInv --length=%d" % (init, length), ok=r["ok"], distinct=0, generated=0, wall_s=round(r["wall"], 1)))
+        ctx.log("apalache AllocInd %s: ok=%s %.1fs" % (init, r["ok"], r["wall"]))
+        if not r["ok"]:
+            raise vf.InfraError("Apalache: HeapInv is not inductive (%s)\n%s" % (init, r["out"]))
     exe = vf.build("none", "none", extra_flags=["-march=native"], extra_srcs=["alloc_tu.cpp"])
     rng = ctx.rng
     nh, nops = ctx.q(48, 2000), ctx.q(50, 50)
